@@ -6,6 +6,7 @@ cd "$(dirname "$0")/.."
 export CARGO_NET_OFFLINE=true
 python3 tools/gen_consts.py /repo lean/Sucds/Gen/Consts.lean
 python3 tools/gen_codecs.py /repo lean/Sucds/Gen/Codecs.lean
+python3 tools/gen_fns.py /repo lean/Sucds/Gen/Fns.lean
 (cd lean && lake build Sucds sucds_model)
 python3 - <<'PY'
 import sys
